@@ -45,6 +45,8 @@ type FuncCtx struct {
 	frameN      int
 	qn          int
 	pureDepth   int
+	wfDepth     int
+	privateRefs []Term
 }
 
 type Val struct {
@@ -140,6 +142,10 @@ type Frame struct {
 	frameID   int
 	deferKeys map[*ssa.Defer]string
 	pseudoOrd map[ssa.Instruction]int
+	doneBlocks  map[*ssa.BasicBlock]bool
+	innerDone   map[*ssa.BasicBlock]bool
+	unrolling   *loop
+	pendingBack []predEdge
 }
 
 type predEdge struct {
@@ -604,6 +610,12 @@ func (c *FuncCtx) freshOfType(label string, t types.Type) Term {
 }
 
 func (c *FuncCtx) wellFormed(v Term, t types.Type) {
+	if _, ok := t.Underlying().(*types.Struct); ok {
+		if w := c.wfTerm(v, t); w.S != "true" {
+			c.assumeG(w)
+		}
+		return
+	}
 	switch u := t.Underlying().(type) {
 	case *types.Slice:
 		c.assumeG(c.sliceWF(v))
@@ -718,9 +730,25 @@ func (fr *Frame) run(st *State, reach Term) error {
 		}
 	}
 	fr.entry = st.clone()
-	order := fr.loops.order
 	fr.inEdges[fn.Blocks[0]] = []predEdge{{nil, reach, st}}
+	return fr.runBlocks(fr.loops.order, nil)
+}
+
+// runBlocks executes the given blocks (in topological order). When `within` is non-nil only blocks
+// of that loop are executed (one unrolled iteration).
+func (fr *Frame) runBlocks(order []*ssa.BasicBlock, within *loop) error {
+	c := fr.c
+	fn := fr.fn
 	for _, b := range order {
+		if within != nil && !within.body[b] {
+			continue
+		}
+		if fr.doneBlocks[b] && within == nil {
+			continue
+		}
+		if within != nil && fr.innerDone[b] {
+			continue
+		}
 		edges := fr.inEdges[b]
 		if len(edges) == 0 {
 			continue
@@ -738,7 +766,13 @@ func (fr *Frame) run(st *State, reach Term) error {
 		bst := c.mergeStates(ies, fmt.Sprintf("b%d", b.Index))
 		fr.curBlock = b
 		fr.setReach(breach)
-		if l := fr.loops.heads[b]; l != nil {
+		if l := fr.loops.heads[b]; l != nil && l != within {
+			if n := fr.unrollCount(l); n > 0 {
+				if err := fr.runUnrolled(l, n); err != nil {
+					return err
+				}
+				continue
+			}
 			if err := fr.enterLoop(l, bst); err != nil {
 				return err
 			}
@@ -750,11 +784,97 @@ func (fr *Frame) run(st *State, reach Term) error {
 	return nil
 }
 
+func (fr *Frame) unrollCount(l *loop) int {
+	if fr.con == nil {
+		return 0
+	}
+	return fr.con.Unroll[l.ordinal]
+}
+
+// runUnrolled executes loop l by unrolling it n times; an "unwind" obligation states that no
+// further iteration is possible, so the unrolling is exact (not a bounded stand-in).
+func (fr *Frame) runUnrolled(l *loop, n int) error {
+	if fr.doneBlocks == nil {
+		fr.doneBlocks = map[*ssa.BasicBlock]bool{}
+	}
+	outer := fr.unrolling
+	fr.unrolling = l
+	saveInner := fr.innerDone
+	defer func() { fr.unrolling = outer; fr.innerDone = saveInner }()
+	var order []*ssa.BasicBlock
+	for _, b := range fr.loops.order {
+		if l.body[b] {
+			order = append(order, b)
+		}
+	}
+	iterKey := fmt.Sprintf("U:loop%d@%d", l.ordinal, fr.frameID)
+	fr.c.registerKey(iterKey, fr.c.sc.idxSort(), true)
+	setIter := func(k int) {
+		for _, e := range fr.inEdges[l.head] {
+			e.st.set(iterKey, fr.c.sc.idxLit(int64(k)))
+		}
+	}
+	for iter := 0; iter < n; iter++ {
+		fr.pendingBack = nil
+		fr.innerDone = map[*ssa.BasicBlock]bool{}
+		setIter(iter)
+		if err := fr.runBlocks(order, l); err != nil {
+			return err
+		}
+		back := fr.pendingBack
+		fr.pendingBack = nil
+		for _, b := range order {
+			delete(fr.inEdges, b)
+		}
+		if len(back) == 0 {
+			break
+		}
+		fr.inEdges[l.head] = back
+		if iter == n-1 {
+			// after n iterations only the loop head is executed once more (it decides the exit);
+			// every edge from it back into the body is the unwinding obligation
+			fr.innerDone = map[*ssa.BasicBlock]bool{}
+			setIter(n)
+			if err := fr.runBlocks([]*ssa.BasicBlock{l.head}, l); err != nil {
+				return err
+			}
+			var conds []Term
+			for _, b := range order {
+				if b == l.head {
+					continue
+				}
+				for _, e := range fr.inEdges[b] {
+					conds = append(conds, e.cond)
+				}
+			}
+			for _, e := range fr.pendingBack {
+				conds = append(conds, e.cond)
+			}
+			fr.pendingBack = nil
+			fr.oblige("unwind", fmt.Sprintf("loop%d", l.ordinal), not(or(conds...)), token.NoPos, fmt.Sprintf("loop %d needs no more than %d iterations (unrolling is exact)", l.ordinal, n))
+			for _, b := range order {
+				delete(fr.inEdges, b)
+			}
+		}
+	}
+	for _, b := range order {
+		fr.doneBlocks[b] = true
+		if saveInner != nil {
+			saveInner[b] = true
+		}
+	}
+	return nil
+}
+
 func (fr *Frame) edge(from, to *ssa.BasicBlock, cond Term, st *State) {
 	if cond.S == "false" {
 		return
 	}
 	if fr.loops.backEdge[[2]int{from.Index, to.Index}] {
+		if fr.unrolling != nil && fr.unrolling.head == to {
+			fr.pendingBack = append(fr.pendingBack, predEdge{from, cond, st})
+			return
+		}
 		fr.backEdge(fr.loops.heads[to], from, cond, st)
 		return
 	}
@@ -1158,4 +1278,78 @@ func (fr *Frame) allocID(a *ssa.Alloc) int {
 // identified across this point (only when an epoch is in use at all).
 func (c *FuncCtx) heapWritten(st *State) {
 	c.bumpEpoch(st)
+}
+
+// privateAlloc: the allocation's address never leaves the function: it is only dereferenced,
+// indexed, or sliced into slices that are themselves only indexed / measured locally.
+func privateAlloc(a *ssa.Alloc) bool {
+	return privateUses(a, map[ssa.Value]bool{})
+}
+
+func privateUses(v ssa.Value, seen map[ssa.Value]bool) bool {
+	if seen[v] {
+		return true
+	}
+	seen[v] = true
+	refs := v.Referrers()
+	if refs == nil {
+		return false
+	}
+	for _, r := range *refs {
+		switch u := r.(type) {
+		case *ssa.DebugRef:
+		case *ssa.UnOp:
+			if u.Op != token.MUL || u.X != v {
+				return false
+			}
+			// loading a pointer-typed element leaks nothing about v itself
+		case *ssa.Store:
+			if u.Val == v {
+				// stored into a local variable: follow the loads of that variable
+				cell, ok := u.Addr.(*ssa.Alloc)
+				if !ok || cell.Referrers() == nil {
+					return false
+				}
+				for _, cr := range *cell.Referrers() {
+					switch cu := cr.(type) {
+					case *ssa.Store:
+						if cu.Addr != cell {
+							return false
+						}
+					case *ssa.UnOp:
+						if cu.Op != token.MUL || !privateUses(cu, seen) {
+							return false
+						}
+					case *ssa.DebugRef:
+					default:
+						return false
+					}
+				}
+				continue
+			}
+			if u.Addr != v {
+				return false
+			}
+		case *ssa.FieldAddr:
+			if !privateUses(u, seen) {
+				return false
+			}
+		case *ssa.IndexAddr:
+			if u.X != v || !privateUses(u, seen) {
+				return false
+			}
+		case *ssa.Slice:
+			if u.X != v || !privateUses(u, seen) {
+				return false
+			}
+		case *ssa.Call:
+			b, ok := u.Call.Value.(*ssa.Builtin)
+			if !ok || (b.Name() != "len" && b.Name() != "cap") {
+				return false
+			}
+		default:
+			return false
+		}
+	}
+	return true
 }
